@@ -14,14 +14,14 @@ def run(tier, vd):
     res = validate_traces("NeighTrace", nf, parallel=8)
     vd.add_validation(res)
     r2 = dict(res)
-    r2["viol"] = [v for v in res["viol"] if v["rule"] in ("E2", "E3")]
+    r2["viol"] = [v for v in res["viol"] if v["rule"] in ("E2", "E3", "PANIC")]
     report_viols(vd, "C10", r2, {"world": "neigh", "seed": sd}, lambda v: {"rule": v["rule"], "world": "neigh"}, lambda v: "neigh %s %s" % (v["rule"], v["p"]))
     # TCP worlds: every segment well-formed with valid checksums (K2), within the MTU (S2)
     pf = tcpcommon.pair_random(vd, "quick", sd, "c10", pollat=False) + tcpcommon.peer_random(vd, "quick", sd, "c10")
     r3 = validate_traces("TcpTrace", pf, parallel=8, timeout=3000)
     vd.add_validation(r3)
     r3b = dict(r3)
-    r3b["viol"] = [v for v in r3["viol"] if v["rule"] in ("K2", "S2")]
+    r3b["viol"] = [v for v in r3["viol"] if v["rule"] in ("K2", "S2", "PANIC")]
     report_viols(vd, "C10", r3b, {"world": "tcp", "seed": sd}, lambda v: {"rule": v["rule"], "world": "tcp"}, lambda v: "tcp %s %s" % (v["rule"], v["p"]))
     # fragmenting world: every fragment fits the MTU and non-final fragments carry a multiple of 8 octets (F1), parses (F2 unparsed)
     exe = build_harness()
@@ -33,7 +33,7 @@ def run(tier, vd):
     r4 = validate_traces("FragTrace", ff, parallel=8)
     vd.add_validation(r4)
     r4b = dict(r4)
-    r4b["viol"] = [v for v in r4["viol"] if v["rule"] == "F1" or (v["rule"] == "F2" and "unparsed" in v["p"])]
+    r4b["viol"] = [v for v in r4["viol"] if v["rule"] in ("F1", "PANIC") or (v["rule"] == "F2" and "unparsed" in v["p"])]
     report_viols(vd, "C10", r4b, {"world": "frag", "seed": sd}, lambda v: {"rule": v["rule"], "world": "frag"}, lambda v: "frag %s %s" % (v["rule"], v["p"]))
     vd.cov["samples"].append({"kind": "ingress row with reply frames (source ownership, well-formedness flags from the independent parser)", "events": [e for e in read_ndjson(itf) if e.get("ev") == "row" and e.get("out")][:3]})
 
